@@ -63,6 +63,20 @@ CHECKS = {
         note="Order inside an instant and dips between -1e-10 and 0 are left open by the property and are not judged. 'No report is produced' is decided end-to-end in C12.",
         design="3/C08",
     ),
+    "C09": dict(
+        category="model_checking",
+        technique="explicit-state exploration of every (node, cut) edge of the history prefix tree on the real pipeline; differential oracle: run of the whole history vs run of the truncated history vs run limited by to-date",
+        text="Every valid history up to depth 4 (thorough 5) over an alphabet biased to continuations the method would prefer (all three price ranks, newer lots, income lots, partial and spanning sales, transfer fee) x fifo/lifo/hifo/lofo and the 12 two-year schedules, steps same-instant / +1h / +1d / +1y, both sheet orders: for every cut between two distinct timestamps the figures of all events at or before the cut (pairing, amounts, proceeds, cost, gain, long/short, k/n, closed years) equal those of the truncated history, and the run limited by to-date equals the truncated run on the complete canonical dump (rows, running sums, sold %, counts, yearly lines, balances, average price). Checked on every edge, it holds for every continuation within the bound by transitivity.",
+        note="Differential: both sides are the real code, so a defect that affects both runs identically is invisible here (C01/C02 judge absolute correctness). Single UTC offset.",
+        design="3/C09",
+    ),
+    "C10": dict(
+        category="exploration",
+        technique="bounded-exhaustive history tree x every from<=to pair over the dates of interest on the real pipeline; differential oracle against the unfiltered and the to-date-only run",
+        text="Every valid multi-year history up to depth 3 (thorough 4) over 7 symbols x fifo/hifo (thorough: 4 methods) x EVERY window from <= to (either bound may be absent) over each transaction date +-1 day, Jan 1 / Jul 1 / Dec 31 of touched years and dates outside the history (150-250 windows per history), also with every timestamp in +09:00 so that own calendar date != UTC date: rows and fractions shown are exactly those dated in the window, every figure equals the unfiltered run, counts / balances / average price equal the to-date-only run, yearly lines are the to-date-only lines of years >= from-year.",
+        note="Differential against the real code's own unfiltered run; the sold-% column is per-window by definition and not judged.",
+        design="3/C10",
+    ),
 }
 
 NOT_YET = {
